@@ -177,6 +177,14 @@ Second generation (class GenR; Gen/CommitmentPolicyGen.v): functions over struct
                `m.retain(|k, _| <bool in k>);` (map_retain: filter on the keys);
                `for (k, v) in m { .. }` consuming a local `Map<K, u64>`: the pairs are visited in the order
                `pair_order m`, an uninterpreted parameter of which the theorems only assume that it permutes its argument.
+  added for NodeState::prune_forwarded_payments:
+               in a state-passing method, at the top level of the body: `let x = &mut self.f;` for a map field f of
+               records - x is another name of the field, nothing is generated - and its only use
+               `x.retain(|k, v| { stmts; keep });` with a block closure that may call translated functions (so it may
+               panic) and assigns captured variables of the function (not self): map_retain_st of Base/Rust.v, the assigned
+               variables are the state handed from entry to entry, the entries are visited in the order of the association
+               list (the theorems quantify over the state, hence over every list that represents the map); afterwards
+               self.f is the retained map.  Any other use of x, or the same inside a conditional / loop, is refused.
   refused    : a Rust binder whose name the generated text uses itself (prof, warn, policy, Val, t<digits>, gen_.., ..), a
                `let` that shadows a variable in scope, `return`, `else`
                branches of statements, `match`, `&mut`, closures anywhere else, struct literals, everything not listed.
@@ -797,6 +805,10 @@ class P:
         if self.at("&"):
             self.eat("&")
             if self.at("mut"):
+                if self.known is not None and self.peek(1)[1] == "self" and self.peek(2)[1] == "." and self.peek(3)[0] == "id" \
+                        and self.peek(4)[1] == ";":
+                    self.eat("mut"); self.eat("self"); self.eat(".")
+                    return ("mutref_field", self.eat(kind="id"))      # let x = &mut self.f;  (x is another name of the field)
                 raise GenError("a `&mut` borrow is outside the fragment")
             return ("ref", self.unary())
         if self.at("!"):
@@ -2628,6 +2640,10 @@ class GenR(Gen):
                 if tgt[0] != "var":
                     raise GenError("assignment target %r is outside the fragment" % (tgt,))
                 out.append(tgt[1])
+            elif s[0] == "expr" and s[1][0] == "mcall" and s[1][1][0] == "var" and s[1][1][1] in getattr(self, "field_alias", {}):
+                raise GenError("an update of `%s` (a name of a field of self) inside a conditional, loop or closure is outside the fragment" % s[1][1][1])
+            elif s[0] == "let" and s[3][0] == "mutref_field":
+                raise GenError("`&mut self.%s` inside a conditional, loop or closure is outside the fragment" % s[3][1])
             elif s[0] == "expr" and s[1][0] == "mcall" and s[1][1][0] == "var" and s[1][2] in ("extend", "push", "insert", "retain") \
                     and s[1][1][1] in getattr(self, "collections", ()):
                 out.append(s[1][1][1])
@@ -2704,6 +2720,49 @@ class GenR(Gen):
                 x = pat_ or self.fresh()
                 return self.emit_binds(b, "%s <-? (if %s\nthen (%s)\nelse (%s)) ;;\n%s" % (
                     x, c, then_t, else_t, self.stmts(rest, env, k)))
+        if kind == "let" and s[3][0] == "mutref_field":
+            # let x = &mut self.f;  x is another name of the map field f of self (state-passing methods, top level only):
+            # nothing is generated; the only use of x inside the fragment is x.retain(<block closure>)
+            x, ty, f = s[1], s[2], s[3][1]
+            ft = dict(self.structs[self.owner]).get(f, "")
+            if not (self.cur.get("as_state") and self.depth == 0 and not self.pure and isinstance(x, str) and ty is None
+                    and x not in env and x not in self.field_alias and ft.startswith("map:struct:")):
+                raise GenError("`let %s = &mut self.%s` is outside the fragment" % (x, f))
+            self.binder(x, env=env)
+            self.field_alias[x] = f
+            return self.stmts(rest, env, k)
+        if kind == "expr" and s[1][0] == "mcall" and s[1][1][0] == "var" and s[1][1][1] in self.field_alias:
+            e = s[1]
+            x, f = e[1][1], self.field_alias[e[1][1]]
+            if not (e[2] == "retain" and len(e[3]) == 1 and e[3][0][0] == "closure" and len(e[3][0][1]) == 2
+                    and e[3][0][2][0] == "block" and self.depth == 0 and not self.pure):
+                raise GenError("%s.%s(..) on a name of self.%s is outside the fragment" % (x, e[2], f))
+            # x.retain(|k, v| { stmts; keep }) with a closure that assigns captured variables of the function: the entries
+            # are visited in the order of the association list (map_retain_st, Base/Rust.v); the assigned variables are
+            # the state handed from entry to entry
+            sn = dict(self.structs[self.owner])[f][len("map:struct:"):]
+            kpar, vpar = e[3][0][1]
+            ss_c, tail_c = e[3][0][2][1], e[3][0][2][2]
+            carried = self.assigned2(ss_c)
+            if not carried or "self" in carried or any(v_ not in env for v_ in carried) or tail_c is None:
+                raise GenError("a retain closure that assigns %s (or has no value) is outside the fragment" % (carried,))
+            env_c = {a: b for a, b in env.items() if a != "self"}      # self is borrowed by the map for the whole call
+            env_c[self.binder(kpar, env=env)] = "id"
+            env_c[self.binder(vpar, env=env)] = "struct:" + sn
+            val_, pat_ = self.carry(carried)
+
+            def kc(env2):
+                bb, cc, tt_ = self.expr(tail_c, env2, "bool")
+                if tt_ != "bool":
+                    raise GenError("a retain closure with a value of type %s" % tt_)
+                return self.emit_binds(bb, "Val (OkR (%s, %s))" % (val_, cc))
+            self.depth += 1
+            body_c = self.stmts(ss_c, env_c, kc)
+            self.depth -= 1
+            nm = self.fresh()
+            return "'(%s, %s) <-? map_retain_st %s (fun %s %s %s =>\n%s) %s ;;\nlet self := %s in\n%s" % (
+                nm, val_, self.proj(self.owner, f, "self"),
+                pat_, kpar, vpar, body_c, val_, self.set_field(f, nm), self.stmts(rest, env, k))
         if kind == "let":
             x, ty, e = s[1], s[2], s[3]
             if e[0] == "macro" and e[1] == "scoped_debug_return":
@@ -3376,6 +3435,7 @@ class GenR(Gen):
         if muts:
             m["state_param"] = muts[0]
         self.aliases = {}
+        self.field_alias = {}
         m.pop("as_state", None)
         if m["selfmode"] == "mut" and owner != self.validator and (owner, m["name"]) in self.state_methods:
             # state-passing: the updated record (and the value) is the Ok of a computation that cannot return errors
@@ -4063,7 +4123,7 @@ def _generate_node_payments(repo):
     known = dict(known_cp)
     known.update({"RoutedPayment": "struct:RoutedPayment", "PaymentState": "struct:PaymentState", "NodeState": "struct:NodeState",
                   "BalanceDelta": "struct:BalanceDelta", "UnorderedSet": "path", "Vec": "path", "OrderedMap": "path",
-                  "PaymentPreimage": "path", "PaymentHash": "path", "Sha256Hash": "path"})
+                  "PaymentPreimage": "path", "PaymentHash": "path", "Sha256Hash": "path", "Self": "path"})
     own = ["RoutedPayment", "PaymentState", "NodeState"]
     structs = {n: struct_fields(nd, n, skip_unknown=True, known=known) for n in own}
     structs["BalanceDelta"] = [("0", "u64"), ("1", "u64")]
@@ -4082,7 +4142,8 @@ def _generate_node_payments(repo):
             ("NodeState", "validate_payments", nd, "impl NodeState", "node.rs"),
             ("NodeState", "apply_payments", nd, "impl NodeState", "node.rs"),
             ("NodeState", "htlc_fulfilled", nd, "impl NodeState", "node.rs"),
-            ("NodeState", "is_forwarded_payment_prunable", nd, "impl NodeState", "node.rs")]
+            ("NodeState", "is_forwarded_payment_prunable", nd, "impl NodeState", "node.rs"),
+            ("NodeState", "prune_forwarded_payments", nd, "impl NodeState", "node.rs")]
     methods, texts = {}, {}
     for owner, n, src, header, _ in plan:
         texts[(owner, n)] = method_source(src, None, n, header=header)
@@ -4092,7 +4153,7 @@ def _generate_node_payments(repo):
     cp = "CommitmentPolicyGen."
     g.coq_struct = {n: (cp + n, cp + n) for n in ("SimplePolicy", "PolicyDevFlags", "CommitmentInfo2", "HTLCInfo2")}
     g.new_fns = {"UnorderedSet::new": ("[]", "set"), "Vec::new": ("[]", "vec_id"), "OrderedMap::new": ("[]", "empty")}
-    g.state_methods = {("NodeState", "apply_payments"), ("NodeState", "htlc_fulfilled")}
+    g.state_methods = {("NodeState", "apply_payments"), ("NodeState", "htlc_fulfilled"), ("NodeState", "prune_forwarded_payments")}
     ex = lambda txt: P(lex(txt) + [("eof", "")], known).expr()
     # values the node obtains from other crates: parameters of the translation
     g.opaque = [(ex("PaymentPreimage([0; 32])"), {}, "dummy_preimage", "id"),
